@@ -60,15 +60,18 @@ class Ctx:
         where: FuncInfo | str | None = None,
         node: ast.AST | None = None,
         construct: ast.AST | str | None = None,
+        key_fn: str | None = None,
     ) -> bool:
-        """record one obligation instance.
+        """record one obligation instance.  ``key_fn``: the function the finding is attributed to in its key when
+        that is not the function the construct stands in (a private helper is attributed to its public caller, so
+        that extracting a helper neither hides nor resurrects a finding).
 
         key = rule | function | normalised construct: no line numbers, so a
         reformat neither hides nor resurrects a finding."""
         if isinstance(where, FuncInfo):
             self.saw(where)
             loc = where.loc(node)
-            fn = where.fq
+            fn = key_fn or where.fq
         else:
             fn = where or ""
             loc = where or ""
